@@ -194,6 +194,18 @@ def explore_lines(cx, n):
             out.append(("S%d" % cid, "S S%d %d %s 0.5" % (cid, variant, he))); cid += 1
         for sm in ("nan", "inf", "-inf", "-1", "2", "0", "1", "1e308"):
             out.append(("S%d" % cid, "S S%d %d 5 %s" % (cid, variant, sm))); cid += 1
+    # per-component non-finite injection (deterministic): NaN / +inf / -inf in exactly one component of the first, a
+    # middle and the last vertex (or of each argument component / matrix entry) for every entry point taking coordinates
+    for entry, sels, comps in (("Warp", (0, 1, 2), (0, 1, 2)), ("WarpBatch", (0, 1, 2), (0, 1, 2)), ("MeshGL64", (0, 1, 2), (0, 1, 2, 3)),
+                               ("MeshGL", (0, 1, 2), (0, 1, 2, 3)), ("Transform", (0, 1, 2), (0, 1, 2, 3)), ("Translate", (0,), (0, 1, 2)),
+                               ("Scale", (0,), (0, 1, 2)), ("Rotate", (0,), (0, 1, 2)), ("Mirror", (0,), (0, 1, 2)),
+                               ("SetPropertiesCb", (0, 1, 2), (0, 1, 2)), ("LevelSetSdf", (0, 1, 2), (0,)), ("LevelSetBounds", (0, 1), (0, 1, 2)),
+                               ("ExtrudePoly", (0, 1, 2), (0, 1)), ("RevolvePoly", (0, 1, 2), (0, 1)), ("TriangulatePoly", (0, 1, 2), (0, 1)),
+                               ("CrossSectionPoly", (0, 1, 2), (0, 1))):
+        for sel in sels:
+            for comp in comps:
+                for val in ("nan", "inf", "-inf"):
+                    out.append(("W%d" % cid, "W W%d %s %d %d %s" % (cid, entry, sel, comp, val))); cid += 1
     for fixed in ("1e-6 0", "1e-6 1 0", "1e-6 2 0 0", "0 1 1 0.5 0.5", "-1 1 2 0 0 1 1", "-1 1 3 0 0 1 0 0 1", "-1 1 3 nan 0 1 0 0 1",
                   "-1 1 4 0 0 1 0 1 1 0 1", "-1 2 4 0 0 3 0 3 3 0 3 4 1 1 1 2 2 2 2 1", "inf 1 3 0 0 1 0 0 1", "nan 1 3 0 0 1 0 0 1",
                   "-1 1 4 0 0 0 0 0 0 0 0", "-1 1 4 0 0 1 1 0 1 1 0", "-1 1 3 1e308 0 -1e308 0 0 1e308"):
@@ -493,11 +505,11 @@ def run(cx):
     ko2 = lambda l: l.split()[1] if l.startswith("O ") else None
     eo = ""
     ecr = []
-    for l, rc1, out1, err1 in run_isolated(exe, [l for _, l in ex if l.startswith("N ") or l.startswith("S ")]):
+    for l, rc1, out1, err1 in run_isolated(exe, [l for _, l in ex if l[:2] in ("N ", "S ", "W ")]):
         eo += out1
         if rc1 != 0:
             ecr.append((l, rc1, err1))
-    o2, c2 = vp.run_cases(exe, [l for _, l in ex if not (l.startswith("N ") or l.startswith("S "))], kl2, ko2, timeout=1500, max_restarts=40, env=env)
+    o2, c2 = vp.run_cases(exe, [l for _, l in ex if l[:2] not in ("N ", "S ", "W ")], kl2, ko2, timeout=1500, max_restarts=40, env=env)
     eo += o2
     for cl, rc1, err1 in c2:           # confirm every batch failure alone, with the full report
         if cl.startswith("<"):
@@ -512,7 +524,7 @@ def run(cx):
         if rc1 == 124:
             continue        # wall-clock timeout of the runner (machine load); the CPU-time watchdog (SIGPROF, rc -27) decides hangs
         kind = cl.split()[0]
-        what = cl.split()[2] if kind == "N" else {"P": "polygons", "H": "hull-points", "B": "obj-text", "S": "Smooth"}.get(kind, kind)
+        what = cl.split()[2] if kind in ("N", "W") else {"P": "polygons", "H": "hull-points", "B": "obj-text", "S": "Smooth"}.get(kind, kind)
         args = "_".join(cl.split()[3:7]) if kind == "N" else ("_".join(cl.split()[2:5]) if kind == "S" else "")
         # one key per (entry point, crash site); the argument tuples are listed in the description and the replay
         ekeys.setdefault("explore-%s:%s" % (what, crash_site(err1)), []).append((cl, rc1, err1))
@@ -528,6 +540,23 @@ def run(cx):
             argl = ["OBJ text with line lengths %s" % rp["obj_line_lengths"][:12]]
         cx.violation(key, "%d argument tuple(s) made the implementation die or hang: %s (first: rc=%s %s %s)" % (len(lst), "; ".join(argl)[:400], rc1, san_summary(err1), "; ".join(frames)[:200]), rp)
     nexp = 0
+    wline = {l.split()[1]: l for _, l in ex if l.startswith("W ")}
+    nonfinite, werr_lost, w_empty_noerror = {}, {}, []
+    for l in eo.splitlines():
+        if l.startswith("O ") and " W:" in l:
+            t = l.split()
+            wid, st, nt = t[1], int(t[2]), int(t[3])
+            entry = t[5][2:]
+            if st == 0 and "finite=0" in l:
+                nonfinite.setdefault("nonfinite-accepted:" + entry, []).append(wline.get(wid, wid))
+            if "lost=1" in l:
+                werr_lost.setdefault("error-lost-after-nonfinite:" + entry, []).append(wline.get(wid, wid))
+            if st == 0 and nt == 0 and entry in ("Warp", "WarpBatch"):
+                w_empty_noerror.append(wline.get(wid, wid))
+    for key, lst in sorted(list(nonfinite.items()) + list(werr_lost.items())):
+        cx.violation(key, "a non-finite value in ONE component was accepted: Status NoError with non-finite coordinates / volume (or the error was lost by a "
+                     "following Boolean) in %d case(s): %s" % (len(lst), "; ".join(" ".join(x.split()[2:]) for x in lst[:8])), {"case": lst[0], "all_cases": lst[:40]})
+    cx.cov["observation_warp_nonfinite_gives_empty_NoError"] = [" ".join(x.split()[2:]) for x in w_empty_noerror][:20]
     for l in eo.splitlines():
         if l.startswith("O "):
             nexp += 1
